@@ -54,5 +54,14 @@ def run(ctx):
                 r2 = ['get %d' % rng.choice(rem), 'get %d' % rng.choice(others)]
                 jobs.append(({'mode': mode, 'cap': '64', 'hash': 'const', 'init': '1.2.3.4.5.6'}, [w, r1, r2], 'dfs', n, ctx['seed'] + k, ('--pb', '2')))
             jobs.append(({'mode': mode, 'cap': '64', 'hash': 'const', 'init': '1.2.3.4.5.6'}, [['ext 6', 'del 5'], ['get 4', 'get 4'], ['get 5', 'get 4']], 'dfs', n, ctx['seed'], ('--pb', '2')))
+            # grow of a block WITH extension items: 128 buckets own 10 extension items; a bucket holding 3 + 10 keys grows on the 14th key and
+            # its whole chain is re-created in the doubled block (several items landing in one new bucket, behind a full array).  const: all in
+            # one bucket; mod2: two chains, merged/split by the doubled mask.  Lock-free readers run across the migration.
+            init13 = '.'.join(map(str, range(1, 14)))
+            jobs.append(({'mode': mode, 'cap': '128', 'hash': 'const', 'init': init13}, [['ins 14 140', 'get 13', 'del 9', 'get 4', 'ins 15 150', 'get 15', 'ext 12', 'trav']], 'opseq', 1, ctx['seed'], ()))
+            jobs.append(({'mode': mode, 'cap': '128', 'hash': 'const', 'init': init13}, [['ins 14 140', 'get 14'], ['get 13', 'get 4'], ['get 7', 'get 1']], 'random', n // 2, ctx['seed'], ()))
+            init20 = '.'.join(map(str, range(1, 21)))
+            jobs.append(({'mode': mode, 'cap': '128', 'hash': 'mod2', 'init': init20}, [['ins 21 210', 'ins 22 220', 'ins 23 230', 'get 5', 'get 20', 'del 19', 'trav']], 'opseq', 1, ctx['seed'], ()))
+            jobs.append(({'mode': mode, 'cap': '128', 'hash': 'mod2', 'init': init20}, [['ins 21 210', 'ins 23 230'], ['get 19', 'get 6'], ['ins 22 220', 'get 1']], 'random', n // 2, ctx['seed'], ()))
         do_search(ctx, H, jobs, name, classify=lambda c, h, f, name=name: {'harness': name})
     return tie
